@@ -3,6 +3,8 @@
 package srv
 
 import (
+	"time"
+	"sync/atomic"
 	"fmt"
 	"net"
 	"os"
@@ -68,9 +70,16 @@ func addMark6(r dhcpv6.DHCPv6, tag string) {
 	r.UpdateOption(&dhcpv6.OptionGeneric{OptionCode: dhcpv6.OptionCode(markOpt6), OptionData: []byte(cur + tag)})
 }
 
+// synSetupDelay makes every synthetic setup function take that long (nanoseconds): start-up is
+// then long enough for requests to arrive while it is still going on
+var synSetupDelay atomic.Int64
+
 func synSetup4(args ...string) (handler.Handler4, error) {
 	if len(args) < 2 {
 		return nil, fmt.Errorf("syn: need behaviour and id")
+	}
+	if d := synSetupDelay.Load(); d > 0 {
+		time.Sleep(time.Duration(d))
 	}
 	beh, id := args[0], args[1]
 	switch beh {
@@ -105,6 +114,9 @@ func synSetup4(args ...string) (handler.Handler4, error) {
 func synSetup6(args ...string) (handler.Handler6, error) {
 	if len(args) < 2 {
 		return nil, fmt.Errorf("syn: need behaviour and id")
+	}
+	if d := synSetupDelay.Load(); d > 0 {
+		time.Sleep(time.Duration(d))
 	}
 	beh, id := args[0], args[1]
 	switch beh {
@@ -492,7 +504,15 @@ func stopsEarlyOrReplaces(l []OEntry, ids []int) bool {
 
 func cmpLog(want []invocation, xid uint32) *core.Violation {
 	logMu.Lock()
-	got := append([]invocation(nil), invLog...)
+	var got []invocation
+	for _, e := range invLog {
+		// stragglers of the start-up probes of TestC13Start (their own transaction id ranges) are not
+		// part of the exchange being judged
+		if (e.ReqXid >= 0x5b0000 && e.ReqXid <= 0x5bffff) || (e.ReqXid >= 0x5b400000 && e.ReqXid <= 0x5b40ffff) {
+			continue
+		}
+		got = append(got, e)
+	}
 	logMu.Unlock()
 	if len(got) != len(want) {
 		return core.Violate("C13/invocations", "handlers invoked: %v, expected: %v", got, want)
